@@ -100,9 +100,15 @@ func (g *sgen) schema(depth int) any {
 		return OObj{{"type", []string{"boolean", "null"}[r.Intn(2)]}}
 	case x < 33:
 		n := 1 + r.Intn(4)
-		e := make([]any, n)
-		for i := range e {
-			e[i] = g.value(1)
+		var e []any
+		seen := map[string]bool{}
+		for i := 0; i < n; i++ {
+			v := g.value(1)
+			k := canonKey(v)
+			if !seen[k] { // the meta-schemas demand unique enum members
+				seen[k] = true
+				e = append(e, v)
+			}
 		}
 		return OObj{{"enum", e}}
 	case x < 37:
@@ -207,6 +213,32 @@ func (g *sgen) schema(depth int) any {
 	default:
 		return OObj{{"not", g.schema(depth - 1)}}
 	}
+}
+
+// a key that identifies a JSON value up to numeric spelling and member order
+func canonKey(v any) string {
+	var x any
+	_ = json.Unmarshal(toJSONText(v), &x)
+	var norm func(any) any
+	norm = func(y any) any {
+		switch t := y.(type) {
+		case float64:
+			return fmt.Sprintf("n:%v", t)
+		case []any:
+			for i := range t {
+				t[i] = norm(t[i])
+			}
+			return t
+		case map[string]any:
+			for k := range t {
+				t[k] = norm(t[k])
+			}
+			return t
+		}
+		return y
+	}
+	b, _ := json.Marshal(norm(x))
+	return string(b)
 }
 
 func sortStrings(a []string) {
